@@ -14,7 +14,7 @@ func init() {
 		ID: "C14",
 		Explanation: "Decides the structural (for the data part: sufficient) condition of C14: (R-C14-1) every read or write of a field of db.kv or db.secret, and every operation on their maps, anywhere in package db, happens with db.DB.mu held (inter-procedural must-held lock sets; the constructor chain Open/openOrCreateKV/newKV is the tabled pre-publication region), with no double lock or unlock of an unheld mutex; " +
 			"(R-C14-2) within one db.DB operation the mutex is not released between state accesses (one critical section per operation); (R-C14-3) no reference to shared state leaves the critical section: values are copied out by string->[]byte conversion, results contain no *secret or map; " +
-			"(R-C14-4) server.Server is immutable after New and handlers write no package-level variable; (R-C14-6) no function of acl, db, audit or server outside init writes memory rooted at a package-level variable (store, map update, delete) unless an exclusive Lock() precedes it on every path; (R-C14-7) audit.Writer, which concurrent requests enter without any lock, only invokes its sink and json.Encoder.Encode over that very sink, and its fields are assigned only by the constructor (anything else must follow an exclusive Lock()); (R-C14-5) the version reported with a value is the very key its bytes were read under.  With 1-3 every operation's whole interaction with shared state lies inside one critical section between its invocation and response, hence operations are linearizable w.r.t. what the sequential code computes (C02). (R-C14-4, extended) outside New the address of a Server field is only read through and no map kept in a Server field is updated: handlers share no mutable container besides the database.",
+			"(R-C14-4) server.Server is immutable after New and handlers write no package-level variable; (R-C14-6) no function of acl, db, audit or server outside init writes memory rooted at a package-level variable (store, map update, delete) unless an exclusive Lock() precedes it on every path; (R-C14-7) audit.Writer, which concurrent requests enter without any lock, only invokes its sink and json.Encoder.Encode over that very sink, and its fields are assigned only by the constructor (anything else must follow an exclusive Lock()); (R-C14-5) the version reported with a value is the very key its bytes were read under.  With 1-3 every operation's whole interaction with shared state lies inside one critical section between its invocation and response, hence operations are linearizable w.r.t. what the sequential code computes (C02). (R-C14-4, extended) outside New the address of a Server field is only read through and no map kept in a Server field is updated: handlers share no mutable container besides the database. (R-C14-8) the conditional get answers not-modified exactly when the versions are equal (C09's R-C09-1: the sequential specification of that operation).",
 		NotDecided:  "Search over concurrent histories; the audit writer (called outside DB.mu in six of eight operations) is not part of the claim; the sequential semantics themselves (C02).",
 		Trusted:     append([]string{"json.Encoder.Encode marshals into a per-call buffer and issues a single Write on its target; on success it keeps no state between calls"}, commonTrusted...),
 		Assumptions: []string{"a single db.DB guards a kv (checked: kv is reachable only through DB.kv)", "calls through function values do not reach package db's private state"},
